@@ -36,7 +36,7 @@ CLAUSE_PROP = [
     ("pair.", None),
 ]
 # clauses that several properties own (checked by each of them)
-ALSO = {"mk.guard-leaf": {"C03", "C06", "C08", "C12"}, "mk.kids-foreign-change": {"C03", "C06"}, "grow.not-fresh": {"C04", "C06"}, "grow.init-not-fresh": {"C04", "C06"},
+ALSO = {"mk.guard-leaf": {"C03", "C06", "C08", "C12"}, "mk.guard-leaf.evidence-discarded": {"C03", "C04", "C06", "C08", "C12"}, "mk.kids-foreign-change": {"C03", "C06"}, "grow.not-fresh": {"C04", "C06"}, "grow.init-not-fresh": {"C04", "C06"},
         "sweep.new-cell-not-fresh": {"C04", "C08"}, "seq.new-cell-not-fresh": {"C04", "C12"}}
 
 
@@ -138,10 +138,16 @@ class Check:
                 # a second (soft) clause was met earlier on the same trace: report the one this property owns
                 def owned(cl):
                     return (self.prop in clause_props(cl)) if own is None else (any(cl.startswith(o) for o in own) or self.prop in ALSO.get(cl, ()))
+                altline = None
+                if "@" in v[3]:
+                    v = (v[0], v[1], v[2], v[3].split("@")[0], int(v[3].split("@")[1]))
+                    altline = v[4]
                 alts = v[3].split("|")
                 mine = [a for a in alts if owned(a)]
                 if not owned(clause) and mine:
                     clause = mine[0]
+                    if altline is not None:
+                        line = altline
                 for a in alts:
                     if not owned(a):
                         sec = self.notes.setdefault("secondary_clauses_not_owned_by_this_property", {})
